@@ -21,7 +21,7 @@ func init() {
 		RealParts:  []string{"experiment.Floats, Experiment / Trial / Generation aggregate accessors, Generation.FillPopulationStatistics", "Experiment.Execute producing the records (sequential executor, fake clock)"},
 		StubParts:  []string{"GenerationEvaluator (scripted)", "wall clock"},
 		Assumes:    []string{"reference meanings are the accessor documentation: solved count = trials with a solved generation; per-trial best = the generation champion of maximal fitness (ties: any of them); winner statistics = first solved generation, averaged over solved trials, -1 when none; trials left unrecorded by an aborted run are zero-valued records", "relative tolerance 1e-9"},
-		ProbeNames: []string{"probe.series.unsorted", "probe.series.empty", "probe.series.single", "probe.series.ties", "probe.experiment.cut_short", "probe.experiment.mixed_solved_unsolved", "probe.experiment.none_solved", "probe.best_champion_tie", "probe.record_surgery", "probe.experiment.all_zero_fitness", "probe.read_into_used_object", "probe.series.large_offset"},
+		ProbeNames: []string{"probe.series.unsorted", "probe.series.empty", "probe.series.single", "probe.series.ties", "probe.experiment.cut_short", "probe.experiment.mixed_solved_unsolved", "probe.experiment.none_solved", "probe.best_champion_tie", "probe.record_surgery", "probe.experiment.all_zero_fitness", "probe.read_into_used_object", "probe.series.large_offset", "probe.series.updated_in_place", "probe.experiment.modular_champions", "probe.best_among_solvers"},
 	})
 }
 
@@ -191,10 +191,23 @@ func scenarioC19(c *RunCtx) {
 	case 2:
 		s.Faults = []FaultSpec{{Kind: FaultCancelEvalExit, Trial: t.Draw("f.trial", s.Opts.NumRuns), Gen: t.Draw("f.gen", s.Opts.NumGenerations)}}
 	}
+	// champions whose genome carries modules: their complexity is that of the expressed network, control nodes and
+	// module links included. Offspring by mutation only (crossover of modular genomes lets them grow without limit,
+	// which no listed property is about).
+	modular := t.Chance("modularStart", 1, 6)
+	if modular {
+		s.Start = BuildModularGenome(t)
+		s.Opts.MutateOnlyProb = 1
+		c.Count("probe.experiment.modular_champions")
+	}
 	c.Sample = s.Describe()
 	seedLib(int64(t.Draw("exec.libseed", 1<<31)))
 	s.Run(c.LibSoft)
 	c.SimNanos += int64(s.SimElapsed)
+	if modular && s.Err != nil && s.FaultSeq < 0 {
+		// evolution of modular genomes is outside the listed properties: an epoch error there is not judged
+		c.Skip("modular-experiment-error")
+	}
 	c.Op("Execute: %s -> err=%v", s.Describe(), s.Err)
 	if s.Err != nil {
 		c.Count("probe.experiment.cut_short")
@@ -268,7 +281,7 @@ func scenarioC19(c *RunCtx) {
 			y[i] = off + float64(rng.Intn(9)+1)/4
 		}
 		checkSeries(c, y, "a synthetic series of large magnitude and small spread")
-		c.Count("probe.series.large_offset")
+		c.Count("probe.series.large_offset", "probe.series.updated_in_place", "probe.experiment.modular_champions", "probe.best_among_solvers")
 		// a series its owner keeps updating in place between queries (the same backing array, the same length: a running
 		// window of results): every query must describe the contents of the moment
 		z := append(experiment.Floats(nil), x...)
